@@ -194,12 +194,13 @@ PMultRest(ts, i, lhs) ==
   ELSE R(lhs, i)
 
 \* Unary ::= {'!' | '-'} Member ; a '-' directly before an integer literal belongs to the literal
+\* when the literal is the whole member (no access follows): -1.foo is -(1.foo)
 PUnary(ts, i) ==
   LET tok == Tk(ts, i) IN
   IF IsOp(tok, "!")
   THEN LET a == PUnary(ts, i + 1) IN IF ~a.ok THEN Fail ELSE R([op |-> "not", a |-> a.v], a.i)
   ELSE IF IsOp(tok, "-")
-  THEN IF Tk(ts, i + 1).t = "int"
+  THEN IF Tk(ts, i + 1).t = "int" /\ ~IsOp(Tk(ts, i + 2), ".") /\ ~IsOp(Tk(ts, i + 2), "[")
        THEN LET x == Mk(TRUE, DigitsMag(Tk(ts, i + 1).d)) IN IF InI64(x) THEN R(V(VLong(x)), i + 2) ELSE Fail
        ELSE LET a == PUnary(ts, i + 1) IN IF ~a.ok THEN Fail ELSE R([op |-> "neg", a |-> a.v], a.i)
   ELSE PMember(ts, i)
